@@ -90,6 +90,28 @@ class L2:
 # ---------------------------------------------------------------------------
 # recoder / selector contracts (discharged from the real SSA)
 # ---------------------------------------------------------------------------
+
+def install_scalar_bytes(ex, prog, bs_of):
+    """contract of Scalar.Bytes (C08): the canonical little-endian encoding, value < l - installed for the exported method
+    and for the outlined helper `bytes(out *[32]byte)` that it (and possibly the recoders directly) call.
+    bs_of(path) -> the 32 byte terms"""
+    def bytes_summary(ex_, path, args):
+        oid = ex_.new_obj(path, ("array", 32, prog.T("uint8")), name="Scalar.Bytes()", init=list(bs_of(path)), kind="heap")
+        return X.SliceV(oid, (), 0, 32, 32)
+
+    def bytes_into(ex_, path, args):
+        s_, out = args
+        bs = list(bs_of(path))
+        for i in range(32):
+            ex_.store(path, X.Ptr(out.obj, out.path + (i,)), bs[i])
+        return X.SliceV(out.obj, out.path, 0, 32, 32)
+    ex.summaries[prog.find("Scalar).Bytes")] = bytes_summary
+    try:
+        ex.summaries[prog.find("Scalar).bytes")] = bytes_into
+    except KeyError:
+        pass
+
+
 def r16_contract(base, chk):
     """signedRadix16: sum d_i*16^i = k, -8 <= d_i <= 8, no int8 overflow, panic branch infeasible (k < l)"""
     from . import kernels as K
@@ -104,7 +126,7 @@ def r16_contract(base, chk):
     def bytes_summary(ex_, path, args):
         oid = ex_.new_obj(path, ("array", 32, prog.T("uint8")), name="Scalar.Bytes()", init=list(bs), kind="heap")
         return X.SliceV(oid, (), 0, 32, 32)
-    ex.summaries[prog.find("Scalar).Bytes")] = bytes_summary
+    install_scalar_bytes(ex, prog, lambda path: bs)
     k.path.pc.append(LFCond("==", K.bval(bs) - kv))   # contract of Scalar.Bytes (C08): little-endian canonical value < l
     s = X.Ptr(ex.new_obj(k.path, prog.T(E + "Scalar"), name="s"))
     paths = ex.call(fname, [s], k.path)
@@ -163,7 +185,7 @@ def r16_bv_search(base, chk, timeout_ms=150000):
     def bytes_summary(ex_, path, args):
         oid = ex_.new_obj(path, ("array", 32, prog.T("uint8")), name="Scalar.Bytes()", init=list(bs), kind="heap")
         return X.SliceV(oid, (), 0, 32, 32)
-    k.ex.summaries[prog.find("Scalar).Bytes")] = bytes_summary
+    install_scalar_bytes(k.ex, prog, lambda path: bs)
     kval = K.cat_bytes(bs)
     k.path.pc.append(z3.ULT(kval, z3.BitVecVal(L, 256)))
     s = X.Ptr(k.ex.new_obj(k.path, prog.T(E + "Scalar"), name="s"))
@@ -275,7 +297,7 @@ def naf_contract(base, chk, w, positions=None):
     def bytes_summary(ex_, path, args):
         oid = ex_.new_obj(path, ("array", 32, prog.T("uint8")), name="Scalar.Bytes()", init=list(bs), kind="heap")
         return X.SliceV(oid, (), 0, 32, 32)
-    ex.summaries[prog.find("Scalar).Bytes")] = bytes_summary
+    install_scalar_bytes(ex, prog, lambda path: bs)
     kval = K.cat_bytes(bs)                       # 256-bit
     k.path.pc.append(z3.ULT(kval, z3.BitVecVal(L, 256)))
     s = X.Ptr(ex.new_obj(k.path, prog.T(E + "Scalar"), name="s"))
